@@ -157,6 +157,8 @@ def gen_step(rng, sid, knames, weights=None):
         st['level'] = rng.choice([0x10, 0x11, 0x12, 0x13])
         st['exportable'] = rng.choice([None, None, True, False])
         st['trust'] = rng.choice([None, None, [1, 60], [2, 120]])
+    if kind == 'add_revoker':
+        st['sensitive'] = rng.random() < 0.35
     if kind in ('revoke_uid', 'revoke_subkey', 'revoke_key'):
         st['reason'] = rng.choice([0, 1, 2, 3, 32])
         st['comment'] = rng.choice(['', 'gone'])
@@ -504,8 +506,12 @@ class KeyHistory(object):
         o = st['other']
         if o == name or o not in self.priv:
             return 'notarget'
+        kw = {}
+        if st.get('sensitive'):
+            kw['sensitive'] = True
+            self.ctx.probe('sensitive_designated_revoker')
         with self._unlocked(name):
-            sig = k.revoker(self.priv[o].pubkey if not self.priv[o].is_public else self.priv[o])
+            sig = k.revoker(self.priv[o].pubkey if not self.priv[o].is_public else self.priv[o], **kw)
         k |= sig
         mk.direct.append(self._rec(bytes(sig), 'revoker', name))
 
